@@ -144,12 +144,20 @@ def hdrs : Items → List Hdr
 /-- the whole call tree of a template, page included -/
 def Tmpl.tree (tm : Tmpl) : Items := .inv tm.page none .plain tm.body .nil
 
-/-- the `home` annotations of the world's call trees are truthful: a section said to be declared by template `hm.tid`
-    carries that template's URI, `cache_args` and page arguments -/
+/-- the `home` annotations of the world's call trees are truthful about the cache id: a section said to be declared by
+    template `hm.tid` carries that template's URI -/
 def HomesOK (w : World R) : Prop :=
   ∀ (t : Nat) (tm : Tmpl), w.tmpls[t]? = some tm → ∀ h, h ∈ hdrs tm.tree → ∀ hm, h.home = some hm →
-    ∃ tm', w.tmpls[hm.tid]? = some tm' ∧ tm'.uri = hm.uri ∧ tm'.cacheArgs = hm.cacheArgs ∧
-      tm'.page.attrs = hm.pageAttrs
+    ∃ tm', w.tmpls[hm.tid]? = some tm' ∧ tm'.uri = hm.uri
+
+/-- `HomesOK`, decidably -/
+def homesOKb (w : World R) : Bool :=
+  w.tmpls.all fun tm => (hdrs tm.tree).all fun h =>
+    match h.home with
+    | none => true
+    | some hm => match w.tmpls[hm.tid]? with
+      | some tm' => decide (tm'.uri = hm.uri)
+      | none => false
 
 /-- `[…].reverse.lookup` : the last binding of `k` -/
 def aGetLast {β : Type} (a : List (Str × β)) (k : Str) : Option β := aGet a.reverse k
